@@ -113,6 +113,50 @@ func cmdStress(args []string) {
 		}()
 	}
 	outer.Wait()
+	// ---- first use under concurrency: recipe shapes this process has never seen, hit by all goroutines at once ----
+	for k := 0; k < 24; k++ {
+		alpha := []rune("abcdefghijklmnopqrstuvwxyz0123456789")
+		// a shape of its own: a rotated alphabet with a marker character, so that no earlier call can have prepared anything for it
+		rot := append(append([]rune{}, alpha[k:]...), alpha[:k]...)
+		spec := CharSpec{Len: 6, AllowChars: CPs(string(rot[:20]) + string(rune(0x3B1+k))), RequireSets: [][]int{CPs(string(rot[3:6]))}}
+		spec.norm()
+		shared := spec.Recipe()
+		results := make([][]GenRes, *G)
+		start := make(chan struct{})
+		var wg sync.WaitGroup
+		for g := 0; g < *G; g++ {
+			wg.Add(1)
+			go func(g int) {
+				defer wg.Done()
+				<-start
+				for i := 0; i < 6; i++ {
+					switch (i + g) % 3 {
+					case 0:
+						a := shared.Alphabet()
+						results[g] = append(results[g], GenRes{Kind: "alphabet", Str: CPs(a), Toks: []TokJ{}, Ent: DyadicOf(0)})
+					case 1:
+						p, err := shared.Generate()
+						results[g] = append(results[g], ResOf(p, err, nil))
+					case 2:
+						e := shared.Entropy()
+						results[g] = append(results[g], GenRes{Kind: "entropy", Ent: DyadicOf(e), Toks: []TokJ{}, Str: []int{}})
+					}
+				}
+			}(g)
+		}
+		close(start)
+		wg.Wait()
+		// the reference afterwards, single-threaded
+		sc := Scenario{Kind: "char", Char: &spec, Mode: "paths", Paths: 0, Tag: "stress-first-use"}
+		cell := charCellEvents(100+k, sc, 1, &shared)[0].(*CellEv)
+		emc.Emit(cell)
+		for g := range results {
+			for _, r := range results[g] {
+				emc.Emit(LeafEv{Op: "leaf", D: [][2]int{}, Det: -1, Res: r, PathW: []int{}, Conc: 1, Reads: 1})
+			}
+		}
+		emc.Emit(map[string]interface{}{"op": "cellend", "id": 100 + k})
+	}
 	// ---- shared word list, wordlist recipes and separator functions ----
 	words := []string{"one", "two", "three", "kettő", "ice-cream", "zebra", "größe"}
 	sepReq := CharSpec{Len: 2, Allow: int(spg.Digits | spg.Symbols), Require: int(spg.Digits)}
